@@ -1,9 +1,12 @@
 import HvsrVerif.Drv.C08
 import HvsrVerif.Drv.C16
+import HvsrVerif.Drv.HV
+import HvsrVerif.Drv.Loop
 /-!
 # `hvsrdrv`: line-protocol driver executing the models at `Float`
 
 Reads one request per line from stdin and answers with exactly one line on stdout.
+Stateless commands are `P String`; the HVSR-object commands thread a store of objects.
 -/
 open HV.Proto HV.Drv
 
@@ -15,26 +18,32 @@ def dispatch (op : String) : Option (P String) :=
   | "sesame.band" => some sesameBand
   | _ => none
 
-def handle (line : String) : String :=
+def handle (st : Store) (line : String) : Store × String :=
   match tokens line with
-  | [] => "err empty"
+  | [] => (st, "err empty")
   | op :: args =>
-    match dispatch op with
-    | none => "err unknown-op " ++ op
+    match hvCmd op st with
     | some p =>
-      match p.run args with
-      | .ok (out, []) => out
-      | .ok (_, rest) => s!"err trailing {rest.length}"
-      | .error e => "err parse " ++ e
+      match runP p args with
+      | .ok (st', out) => (st', out)
+      | .error e => (st, e)
+    | none =>
+      match dispatch op with
+      | none => (st, "err unknown-op " ++ op)
+      | some p =>
+        match runP p args with
+        | .ok out => (st, out)
+        | .error e => (st, e)
 
-partial def loop (hin hout : IO.FS.Stream) : IO Unit := do
+partial def loop (hin hout : IO.FS.Stream) (st : Store) : IO Unit := do
   let line ← hin.getLine
   if line.isEmpty then return ()
-  hout.putStrLn (handle line)
-  loop hin hout
+  let (st', out) := handle st line
+  hout.putStrLn out
+  loop hin hout st'
 
 def main : IO Unit := do
   let hin ← IO.getStdin
   let hout ← IO.getStdout
-  loop hin hout
+  loop hin hout []
   hout.flush
